@@ -126,6 +126,22 @@ def _run(ctx, w):
     ctx.floor("L5", 3, "limit obligations")
     ctx = ctx0
 
+    # ---- L9: the limit is fixed at construction ---------------------------------------------------------------------------
+    ctx.rule("L9", "a buffer's scrollback limit is set when the buffer is constructed and never written afterwards (no function's write summary reaches the limit field of an existing buffer)")
+    n9 = 0
+    for fn in sorted(w.bodies):
+        fo = w.facts.fns.get(fn, {})
+        if fo.get("impl_trait"):
+            continue
+        adt = (fo.get("impl_self") or {}).get("adt")
+        allp = [p for ps in E.stmt_writes.get(fn, {}).values() for p in ps]
+        own = [p for p in allp if (adt == S.buffer_ty and p[:2] == ("arg1", T.limit_field)) or (adt == S.term_ty and len(p) >= 3 and p[0] == "arg1" and p[1] in S.buffer_fields and p[2] == T.limit_field)]
+        n9 += 1
+        for p in own[:1]:
+            ctx.violation("L9", "%s:%s" % (fn, M.path_str(p)), "%s assigns %s: the retention bound rows + L + L/10 is stated for the limit the terminal was configured with" % (fn, M.path_str(p)), loc=w.fn_loc(fn))
+    ctx.ok("L9", "all", {"functions_scanned": n9})
+    ctx.rule_counts["L9"] = n9
+
     # ---- L6 ----------------------------------------------------------------------------------------------------------------
     from rules import c06
     c06.role_limits(ctx, w, S, R, "W7")
@@ -245,6 +261,7 @@ def growth_flag_rule(ctx, w, S, R, T, rule):
 
 def run(ctx, w):
     _run(ctx, w)
+    shared.mode_rule(ctx, w, shared.screen(w), shared.roles(w), "L8")        # which modes switch screens, and from where
     # which mode numbers switch screens (47 / 1047 / 1049) and which finals scroll is part of the statement: the control
     # functions must be decoded as specified
     from rules import c03
